@@ -271,11 +271,47 @@ def L_lists():
             (f"{PFX}encodable-entry.kcons", [MK(xk, k0, y)], MK(c, k0, y))]
 
 
+# ---- L8: the dataclass constructor applied to the keyword map built by the field loop == BUILD over the data
+nl = z3.Const("n!l", SL)
+hasA, valA, seenA = z3.Const("has!a", z3.ArraySort(S, B)), z3.Const("val!a", z3.ArraySort(S, V)), z3.Const("seen!a", z3.ArraySort(S, B))
+
+
+def _kwinv(seen, has, val, j, c):
+    q = z3.String("q!kw")
+    return z3.ForAll([q], z3.And(z3.Select(has, q) == z3.And(z3.Select(seen, q), HASKEY(j, q)),
+                                 z3.Implies(z3.Select(has, q), z3.Select(val, q) == DESER(GET(j, q), FH(c, q)))),
+                     patterns=[z3.Select(has, q)])
+
+
+def _allseen(seen, c):
+    q = z3.String("q!seen")
+    return z3.ForAll([q], z3.Select(seen, q) == MEMS(FIELDS(c), q), patterns=[z3.Select(seen, q)])
+
+
+def _sub(n, c):
+    q = z3.String("q!sub")
+    return z3.ForAll([q], z3.Implies(norm(MEMS(n, q)), MEMS(FIELDS(c), q)))
+
+
+def BM(n, seen, has, val, j, c):
+    return z3.Implies(z3.And(_kwinv(seen, has, val, j, c), _allseen(seen, c), _sub(n, c)), BUILDM(n, has, val, c) == BUILD(n, j, c))
+
+
+def BM_all(seen, has, val, j, c):
+    return z3.Implies(z3.And(_kwinv(seen, has, val, j, c), _allseen(seen, c)), BUILDM(FIELDS(c), has, val, c) == BUILD(FIELDS(c), j, c))
+
+
+def L_build():
+    return [(f"{PFX}constructor-from-keywords.snil", [], BM(SL.snil, seenA, hasA, valA, jk, cn)),
+            (f"{PFX}constructor-from-keywords.scons", [BM(nl, seenA, hasA, valA, jk, cn)], BM(SL.scons(st, nl), seenA, hasA, valA, jk, cn)),
+            (f"{PFX}constructor-from-keywords.all-fields", [BM(FIELDS(cn), seenA, hasA, valA, jk, cn)], BM_all(seenA, hasA, valA, jk, cn))]
+
+
 def L_wf_encodable():
     return schema("wellformed-is-encodable", lambda t: z3.Implies(WF(t), SEROK(t)), lambda t: z3.Implies(WFL(t), SEROKL(t)),
                   lambda t: z3.Implies(WFKV(t), SEROKKV(t)))
 
 
 def all_lemmas():
-    ls = L_json() + L_idem() + L_keys() + L_keys_members() + L_cov() + L_binary() + L_agree() + L_roundtrip() + L_lists() + L_wf_encodable() + L_marker_collision()
+    ls = L_json() + L_idem() + L_keys() + L_keys_members() + L_cov() + L_binary() + L_agree() + L_roundtrip() + L_lists() + L_build() + L_wf_encodable() + L_marker_collision()
     return [(i, [norm(x_) for x_ in hy], norm(g)) for (i, hy, g) in ls]
